@@ -68,7 +68,7 @@ func ModelOf(f *recipe.File) *Model {
 		}
 	}
 	for p, h := range m.Hint {
-		if h.Op == "ImportAlias" && string(h.Args[1]) == "." && p != "C" {
+		if h.Op == "ImportAlias" && string(h.Args[1]) == "." && p != "C" && !(m.HasLocal && p == m.Local) {
 			m.Dot[p] = true
 		}
 	}
@@ -142,7 +142,10 @@ func (sc *Scenario) Markers() map[string]string {
 
 // RenderAfterWarmup builds the body once, renders it inside another File first (different
 // name, no hints), and then adds the very same Code values to the scenario's File.
-func (sc *Scenario) RenderAfterWarmup() ([]byte, error) {
+func (sc *Scenario) RenderAfterWarmup() ([]byte, error) { return sc.RenderAfterWarmupIn(nil) }
+
+// RenderAfterWarmupIn is RenderAfterWarmup with a given warm-up File (constructor and settings).
+func (sc *Scenario) RenderAfterWarmupIn(warmFile *recipe.File) ([]byte, error) {
 	shared := sc.File.Clone()
 	ref := 1
 	for _, n := range shared.Body {
@@ -152,7 +155,12 @@ func (sc *Scenario) RenderAfterWarmup() ([]byte, error) {
 		}
 	}
 	b := &recipe.Builder{}
-	warm := b.File(&recipe.File{Ctor: "NewFile", Args: []recipe.Text{"warmup"}, Body: shared.Body})
+	if warmFile == nil {
+		warmFile = &recipe.File{Ctor: "NewFile", Args: []recipe.Text{"warmup"}}
+	}
+	wf := warmFile.Clone()
+	wf.Body = shared.Body
+	warm := b.File(wf)
 	_ = warm.Render(&bytes.Buffer{})
 	f := b.File(shared)
 	buf := &bytes.Buffer{}
@@ -168,12 +176,19 @@ func (sc *Scenario) Run() (*Outcome, error) { return sc.run(false) }
 // RunAfterWarmup is Run with the body's Code values rendered in another File beforehand.
 func (sc *Scenario) RunAfterWarmup() (*Outcome, error) { return sc.run(true) }
 
-func (sc *Scenario) run(warm bool) (*Outcome, error) {
+// RunAfterWarmupIn: the body's Code values are first rendered inside the given File.
+func (sc *Scenario) RunAfterWarmupIn(warmFile *recipe.File) (*Outcome, error) {
+	return sc.runWith(true, warmFile)
+}
+
+func (sc *Scenario) run(warm bool) (*Outcome, error) { return sc.runWith(warm, nil) }
+
+func (sc *Scenario) runWith(warm bool, warmFile *recipe.File) (*Outcome, error) {
 	m := ModelOf(&sc.File)
 	o := &Outcome{Model: m, Markers: sc.Markers()}
 	src, err := sc.Render()
 	if warm {
-		src, err = sc.RenderAfterWarmup()
+		src, err = sc.RenderAfterWarmupIn(warmFile)
 	}
 	if err != nil {
 		o.RenderErr = err
